@@ -1,7 +1,9 @@
 import Driver.Drv.Lru
+import Driver.Drv.Utxo
 namespace Driver
 
 def drivers : List (String × CaseFn) := [
-  ("lru", Driver.Drv.Lru.runCase)]
+  ("lru", Driver.Drv.Lru.runCase),
+  ("utxo", Driver.Drv.Utxo.runCase)]
 
 end Driver
